@@ -29,6 +29,7 @@ import (
 	"github.com/gauss-project/aurorafs/pkg/file/joiner"
 	"github.com/gauss-project/aurorafs/pkg/file/pipeline"
 	pbmt "github.com/gauss-project/aurorafs/pkg/file/pipeline/bmt"
+	"github.com/gauss-project/aurorafs/pkg/file/pipeline/builder"
 	encw "github.com/gauss-project/aurorafs/pkg/file/pipeline/encryption"
 	"github.com/gauss-project/aurorafs/pkg/file/pipeline/hashtrie"
 	pstore "github.com/gauss-project/aurorafs/pkg/file/pipeline/store"
@@ -125,6 +126,9 @@ type jop struct {
 }
 
 type jcase struct {
+	Conc bool  `json:"conc,omitempty"` // concurrent ReadAt layer: G goroutines x K calls on ONE joiner (oracle only)
+	G    int   `json:"g,omitempty"`
+	K    int   `json:"k,omitempty"`
 	Lift bool  `json:"lift,omitempty"` // file of N identical chunks + Tail bytes built through the real writer stages
 	Enc  bool  `json:"enc,omitempty"`  // lift: encrypted (64-byte references, branching 4096, real decrypting store)
 	N    int64 `json:"n,omitempty"`
@@ -150,7 +154,7 @@ func coqZ(v int64) string { return hx.CoqZ(v) }
 
 func main() {
 	run := hx.Start("C07", "Aurora.C07.Corr",
-		"sequences of ReadAt/Read/Seek on the real joiner over a synthetic lazy store: file sizes 0, 1, around 256 KiB and its multiples, around 2 GiB (8192 chunks), around 16 TiB and random up to 2^60; offsets around chunk / subtree boundaries, the end, beyond the end; buffers with cap in {len, len+1, 2 len, len+64}; seeks with the three whences incl. out-of-range and overflowing offsets; optional faulty chunk; lift corpus: real stored trees of identical chunks above 1 GiB (encrypted, 64-byte references through the real decrypting store, branching 4096) and 2 GiB (plain) read around every level boundary; non-trivial = a read that crosses a chunk boundary, has cap > len, or follows a seek; distinct by (size, seed, fault, ops)")
+		"sequences of ReadAt/Read/Seek on the real joiner over a synthetic lazy store: file sizes 0, 1, around 256 KiB and its multiples, around 2 GiB (8192 chunks), around 16 TiB and random up to 2^60; offsets around chunk / subtree boundaries, the end, beyond the end; buffers with cap in {len, len+1, 2 len, len+64}; seeks with the three whences incl. out-of-range and overflowing offsets; optional faulty chunk; concurrent layer (oracle only): 8 goroutines x 30 ReadAt calls on ONE joiner over real uploads of 3, 9, 20 chunks and a lifted encrypted tree; lift corpus: real stored trees of identical chunks above 1 GiB (encrypted, 64-byte references through the real decrypting store, branching 4096) and 2 GiB (plain) read around every level boundary; non-trivial = a read that crosses a chunk boundary, has cap > len, or follows a seek; distinct by (size, seed, fault, ops)")
 	r := run.R
 	ctx := context.Background()
 
@@ -361,7 +365,11 @@ func main() {
 		if err := run.ReadReplay(&jc); err != nil {
 			panic(err)
 		}
-		doCase(jc, true)
+		if jc.Conc {
+			doConc(run, jc)
+		} else {
+			doCase(jc, true)
+		}
 		run.Finish()
 		return
 	}
@@ -562,6 +570,12 @@ func main() {
 		jc := jcase{Size: size, Seed: int64(r.Intn(256)), Ops: genOps(size, 2+r.Intn(3), true)}
 		doCase(jc, false)
 	}
+	// ---- concurrent ReadAt on ONE joiner (io.ReaderAt: "Clients of ReadAt can execute parallel ReadAt
+	// calls on the same input source"); oracle only
+	for _, ch := range []int{3, 9, 20} {
+		doConc(run, jcase{Conc: true, G: 8, K: 30, Size: int64(ch)*CS + int64(r.Intn(5000)), Seed: int64(r.U64() >> 1)})
+	}
+	doConc(run, jcase{Conc: true, G: 8, K: 12, Lift: true, Enc: true, N: BR/2 + 1, Tail: 777, Seed: int64(r.U64() >> 1)})
 	run.Finish()
 }
 
@@ -662,4 +676,155 @@ func liftUpload(ctx context.Context, enc bool, n, tail int) (*liftStore, []byte,
 	}
 	ref, err := top.Sum()
 	return st, ref, err
+}
+
+// ---------------------------------------------------------------- concurrent ReadAt layer
+
+// doConc: G goroutines, released together, each issue K ReadAt calls on the SAME joiner over a real
+// multi-chunk upload (or a lifted tree); every call is checked on its own: n <= len, n == min(len,
+// size-off), bytes equal the content, canary beyond len intact, nil error (io.EOF at/after the end).
+func doConc(run *hx.Run, jc jcase) {
+	ctx := context.Background()
+	var st storage.Getter
+	var root []byte
+	var content func(at int64, n int) []byte
+	size := jc.Size
+	if jc.Lift {
+		size = jc.N*CS + jc.Tail
+		ls, ref, err := liftUpload(ctx, jc.Enc, int(jc.N), int(jc.Tail))
+		if err != nil {
+			run.Violate(hx.Violation{Sig: "lift:upload-error", Detail: err.Error(), Case: jc})
+			return
+		}
+		st, root = ls, ref
+		content = func(at int64, n int) []byte {
+			out := make([]byte, n)
+			for i := range out {
+				out[i] = liftByte(jc.N, at+int64(i))
+			}
+			return out
+		}
+	} else {
+		data := hx.NewRand(uint64(jc.Seed)).Bytes(int(size))
+		ls := &liftStore{m: map[string][]byte{}}
+		p := builder.NewPipelineBuilder(ctx, ls, storage.ModePutUpload, false)
+		if _, err := p.Write(data); err != nil {
+			run.Violate(hx.Violation{Sig: "conc:upload-error", Detail: err.Error(), Case: jc})
+			return
+		}
+		sum, err := p.Sum()
+		if err != nil {
+			run.Violate(hx.Violation{Sig: "conc:upload-error", Detail: err.Error(), Case: jc})
+			return
+		}
+		st, root = ls, sum
+		content = func(at int64, n int) []byte { return data[at : at+int64(n)] }
+	}
+	j, _, err := joiner.New(ctx, st, storage.ModeGetRequest, boson.NewAddress(root))
+	if err != nil {
+		run.Violate(hx.Violation{Sig: "conc:open-error", Detail: err.Error(), Case: jc})
+		return
+	}
+	type bad struct{ sig, detail string }
+	found := make([][]bad, jc.G)
+	start := make(chan struct{})
+	var wg sync.WaitGroup
+	for g := 0; g < jc.G; g++ {
+		wg.Add(1)
+		go func(g int) {
+			defer wg.Done()
+			rr := hx.NewRand(uint64(jc.Seed)*131 + uint64(g))
+			<-start
+			pk, pm := hx.Guard(func() {
+				for k := 0; k < jc.K; k++ {
+					var l int
+					switch rr.Intn(5) {
+					case 0:
+						l = rr.Intn(64)
+					case 1:
+						l = int(CS) - 1 + rr.Intn(3)
+					case 2:
+						l = int(CS)*(1+rr.Intn(4)) + rr.Intn(1000)
+					default:
+						l = 1 + rr.Intn(3*int(CS))
+					}
+					c := l
+					if rr.Chance(1, 2) {
+						c = l + 1 + rr.Intn(100)
+					}
+					var off int64
+					switch rr.Intn(6) {
+					case 0:
+						off = size - int64(rr.Intn(2*int(CS)))
+					case 1:
+						off = size + int64(rr.Intn(3))
+					case 2:
+						off = (int64(rr.U64()>>1)%(size/CS+1))*CS - int64(rr.Intn(50))
+					default:
+						off = int64(rr.U64()>>1) % size
+					}
+					if off < 0 {
+						off = 0
+					}
+					buf := make([]byte, l, c)
+					full := buf[:c]
+					for i := l; i < c; i++ {
+						full[i] = canary
+					}
+					n, rerr := j.ReadAt(buf, off)
+					where := fmt.Sprintf("goroutine %d call %d ReadAt(len=%d,cap=%d) at %d, size %d", g, k, l, c, off, size)
+					if n > l {
+						found[g] = append(found[g], bad{"readat:concurrent:count>len", where + fmt.Sprintf(": returned %d", n)})
+						continue
+					}
+					for i := l; i < c; i++ {
+						if full[i] != canary {
+							found[g] = append(found[g], bad{"readat:concurrent:writes-beyond-len", where})
+							break
+						}
+					}
+					if off >= size {
+						if n != 0 || rerr != io.EOF {
+							found[g] = append(found[g], bad{"readat:concurrent:no-eof-at-end", where + fmt.Sprintf(": n=%d err=%v", n, rerr)})
+						}
+						continue
+					}
+					want := int64(l)
+					if size-off < want {
+						want = size - off
+					}
+					if rerr != nil {
+						found[g] = append(found[g], bad{"readat:concurrent:error-inside-file", where + ": " + rerr.Error()})
+					} else if int64(n) != want {
+						found[g] = append(found[g], bad{"readat:concurrent:count!=min", where + fmt.Sprintf(": n=%d want %d", n, want)})
+					} else {
+						exp := content(off, n)
+						for i := 0; i < n; i++ {
+							if buf[i] != exp[i] {
+								found[g] = append(found[g], bad{"readat:concurrent:content", where + fmt.Sprintf(": byte %d differs", i)})
+								break
+							}
+						}
+					}
+				}
+			})
+			if pk {
+				found[g] = append(found[g], bad{"readat:concurrent:panic", pm})
+			}
+		}(g)
+	}
+	close(start)
+	wg.Wait()
+	run.OracleChecked(4 * jc.G * jc.K)
+	seen := map[string]bool{}
+	for _, fs := range found {
+		for _, b := range fs {
+			if !seen[b.sig] {
+				seen[b.sig] = true
+				run.Violate(hx.Violation{Sig: b.sig, Detail: b.detail, Case: jc})
+			}
+		}
+	}
+	run.AddCase("", jc, fmt.Sprintf("conc|%d|%d|%d|%d|%v|%d", size, jc.Seed, jc.G, jc.K, jc.Lift, jc.N), true)
+	run.Hist(fmt.Sprintf("concurrent.chunks=%d", (size+CS-1)/CS))
 }
